@@ -564,6 +564,79 @@ pub fn run(rep: &mut Report, thorough: bool) {
         );
         rep.stage("sibling-destinations", "5 pairs of destination addresses (other address, same /64, same /24) x ordered pairs of 4 protocols: two connections from one client endpoint, the second one answered by the responder of ITS leading bytes", scen2.len() as u64, t0);
     }
+    // the decision reads the payload bytes and nothing else of the segment: flag bits next to
+    // PSH|ACK x urgent pointer x window x TCP options, two and three departures at once
+    {
+        let t0 = std::time::Instant::now();
+        let firsts: Vec<&Payload> = pls.iter().filter(|p| ["http-get", "ssh-2", "smb2-negotiate", "rpc-tcp-getport", "ghost"].contains(&p.name)).collect();
+        let f = flow(false, 40000, 80);
+        let ck = learn_cookies(&cfg, &[f.clone()]).unwrap_or_default();
+        let c = ck.get(&key_of(&f)).copied().unwrap_or(0).wrapping_add(1);
+        let extra: [u16; 6] = [0, crate::wire::F_URG, crate::wire::F_URG | 0x40, 0x80, crate::wire::F_URG | 0xc0, 0x100 | crate::wire::F_URG];
+        let opt_sets: [&[u8]; 3] = [&[], &[1, 1, 1, 0], &[2, 4, 5, 0xb4, 1, 3, 3, 7]];
+        let mut plan: Vec<(usize, u16, u16, u16, usize)> = Vec::new();
+        for (pi, p) in firsts.iter().enumerate() {
+            let n = p.bytes.len() as u16;
+            let mut urgs: Vec<u16> = (0..=9).collect();
+            urgs.extend([n - 1, n, n + 1, 0x8000, 0xffff]);
+            for e in extra {
+                for u in &urgs {
+                    for w in [0u16, 1, 8192] {
+                        for o in 0..opt_sets.len() {
+                            plan.push((pi, e, *u, w, o));
+                        }
+                    }
+                }
+            }
+        }
+        let opts = RunOpts::new("segment-header-combinations").stateful().chunk(64).no_monitor();
+        let cfgs = cfg.clone();
+        engine::run(
+            &cfg,
+            plan.len() as u64,
+            &opts,
+            |i| {
+                let (pi, e, u, w, o) = plan[i as usize];
+                let mut seg = crate::wire::TcpSeg::new(f.cport, f.sport, 1000, c, crate::wire::F_PSH | crate::wire::F_ACK | e, &firsts[pi].bytes);
+                seg.urg = u;
+                seg.window = w;
+                seg.options = opt_sets[o].to_vec();
+                seg.doff = 5 + (opt_sets[o].len() / 4) as u8;
+                vec![Cmd::Frame(f.tcp_seg(&seg))]
+            },
+            |it: &Item, sk: &mut Sink| {
+                sk.count("frames", 1);
+                let (pi, e, u, w, _o) = plan[it.idx as usize];
+                let want = match crate::sig::dispatch(&sigs, &firsts[pi].bytes, false) {
+                    crate::sig::Dispatch::Matched(p, _, _) => match p {
+                        crate::sig::Proto::Http => "http",
+                        crate::sig::Proto::Ssh => "ssh",
+                        crate::sig::Proto::Ghost => "ghost",
+                        crate::sig::Proto::Stun => "stun",
+                        crate::sig::Proto::RpcTcp => "rpc-tcp",
+                        crate::sig::Proto::RpcUdp => "rpc-udp",
+                        crate::sig::Proto::Smb1 | crate::sig::Proto::Smb2 => "smb",
+                    },
+                    _ => return,
+                };
+                let app = it.outs[1].reply.as_deref().and_then(crate::mask::app_payload).map(|(_, p)| p).unwrap_or_default();
+                let got = if app.is_empty() { "nobody" } else { responder_of(&app) };
+                if got != want {
+                    sk.violation(Violation {
+                        prop: "C10".into(),
+                        key: format!("decision-depends-on-segment-header:{}-instead-of:{}", got, want),
+                        what: format!("'{}' in a segment with extra flags {:#05x}, urgent pointer {}, window {} is answered by {} (its leading bytes select {})", firsts[pi].name, e, u, w, got, want),
+                        cfg: cfgs.clone(),
+                        cmds: it.cmds.to_vec(),
+                        idx: it.idx,
+                        stage: "segment-header-combinations".into(),
+                    });
+                }
+            },
+            &mut rep.sink,
+        );
+        rep.stage("segment-header-combinations", "5 protocols' first requests x 6 flag sets next to PSH|ACK (URG, ECE, CWR, NS combinations) x 15 urgent pointers (0..9, around the payload length, 0x8000, 0xffff) x 3 windows x 3 TCP option sets: answered by the responder of the leading payload bytes", plan.len() as u64, t0);
+    }
     // near misses at the observable level: datagrams / first segments whose leading bytes complete
     // NO published signature (one literal byte of the signature altered; or, for the end-anchored
     // forms, trailing bytes after a complete match) must not be answered by a signature-dispatched
